@@ -55,6 +55,21 @@ def boundary(t, kmax=5):
     return sorted(x for x in s if x >= 1)
 
 
+def blocked_shapes(t):
+    """every (row block class) x (column block class) of the two blocked kernels (_matmul_base with a scalar column remainder,
+    _matmul_base_masked with a masked one), which are only reached for N > 5 SIMD widths: rows are processed in blocks of 12 / 8 / 4
+    (M % 12 == 0 / M >= 2 widths / else), then single blocks of 4, then the last M % 4 rows; columns in blocks of 2 widths, then of
+    one width, then the remainder N % width (<= 1: scalar loop, > 1: masked).  One shape per class and SIMD width."""
+    S = set()
+    for V in SIMD_WIDTHS[t]:
+        Ns = [5 * V + 1, 5 * V + 2, 6 * V + 3 if V >= 4 else 6 * V + 1, 8 * V - 1]
+        Ms = [5, 13, 2 * V + 5, 24, 2 * V + 12 + (0 if (2 * V + 12) % 12 else 4)]
+        for N in Ns:
+            for M in Ms:
+                S.add((M, 2, N))
+    return S
+
+
 def shapes(t, tier, rng):
     S = set()
     if tier == 'quick':
@@ -80,6 +95,7 @@ def shapes(t, tier, rng):
                     S.add((M, 2, N))
             for (M, K, N) in [(12, 5, 16), (16, 16, 16), (20, 3, 24), (9, 9, 33), (10, 4, 40), (12, 3, 64), (7, 2, 80)]:
                 S.add((M, K, N))
+            S.update(blocked_shapes(t))
     else:
         box = 10 if t in ('f32', 'f64', 'i32') else 6
         for M in range(1, box + 1):
@@ -92,6 +108,8 @@ def shapes(t, tier, rng):
                     S.add((M, K, N))
         for M in range(1, 34):
             S.add((M, M, M))
+        if t in ('f32', 'f64', 'i32'):
+            S.update(blocked_shapes(t))
     return sorted(S)
 
 
